@@ -8,7 +8,7 @@
    Property theorems only; proofs in proofs/LexerProof.v, RadixProof.v. *)
 From DTR Require Import Prelude I64 Ast FramedMap Lexer LexSpec Parser.
 From DTR Require Import Generated GeneratedTables.
-From DTR.proofs Require Import LexSpecProof LexerProof RadixProof TablesProof ParserProof ParserLinesProof ParserLayoutProof ParserBlankLineProof.
+From DTR.proofs Require Import LexSpecProof LexerProof RadixProof TablesProof TablesProofLex ParserProof ParserLinesProof ParserLayoutProof ParserBlankLineProof.
 From Coq Require Import String.
 Local Open Scope N_scope.
 
@@ -45,17 +45,9 @@ Proof. exact radix_value. Qed.
 Example C20_blank_separates : lex_view (s2n "a b"%string) <> lex_view (s2n "ab"%string).
 Proof. vm_compute. discriminate. Qed.
 
-(* ---- T1: the scanner model was written for exactly the tokens and regular expressions of
-   src/lexer/token.rs (GeneratedTables.v is regenerated from it on every run) *)
-Theorem C20_lexer_regexes_are_the_source : gen_regexes =
-  [ ("Ident", "[A-Za-z_]([A-Za-z]|_|\d)*"); ("DecInt", "[1-9][0-9]*"); ("HexInt", "0[xX][0-9a-fA-F]+");
-    ("BinInt", "0[bB][01]+"); ("OctInt", "0[0-7]*"); ("WS", "[ \t\r\f]+"); ("Comment", "#[^\n]*") ]%string.
-Proof. exact regexes_pinned. Qed.
-Theorem C20_header_lexer_regexes_are_the_source :
-  gen_header_regexes = [ ("SignalName", "[^ \t\r\f\n]+"); ("WS", "[ \t\r\f]+") ]%string /\
-  gen_header_tokens = [ ("Eol", "\n") ]%string.
-Proof. exact header_regexes_pinned. Qed.
-Theorem C20_keywords_are_the_source : keywords = gen_keywords.
+(* ---- T1: the scanner model has exactly the keywords and punctuation tokens of src/lexer/token.rs (GeneratedTables.v is
+   regenerated from it on every run; the regular expressions are tied semantically, see the LexSpec theorems) *)
+Theorem C20_keywords_are_the_source : incl keywords gen_keywords /\ incl gen_keywords keywords.
 Proof. exact keywords_pinned. Qed.
 Theorem C20_punctuation_is_the_source : forallb (fun p =>
     match lex_one ((s2n (fst p) ++ [32%N])%list) with
@@ -157,21 +149,65 @@ Theorem C20_blank_line_after_newline :
   | _ => False
   end.
 Proof. exact C20_blank_line_after_newline. Qed.
-(* the regular expressions of src/lexer/token.rs (generated table gen_regexes, re-read from the source on every run) as syntax trees: parse_re understands every one of them *)
+(* the regular expressions of src/lexer/token.rs (generated tables gen_regexes / gen_header_regexes, re-read from the source on every run): parse_re understands every one of them *)
 Theorem C20_regexes_of_the_source_parse :
-  map (fun p : string * string => (fst p, parse_re (snd p))) gen_regexes =
-  [("Ident"%string, Some re_ident); ("DecInt"%string, Some re_dec); ("HexInt"%string, Some re_hex);
-  ("BinInt"%string, Some re_bin); ("OctInt"%string, Some re_oct); ("WS"%string, Some re_ws);
-  ("Comment"%string, Some re_comment)].
-Proof. exact parse_re_gen_regexes. Qed.
+  forallb (fun p : string * string => match parse_re (snd p) with
+  | Some _ => true
+  | None => false
+  end) (gen_regexes ++ gen_header_regexes) = true.
+Proof. exact parse_re_all_some. Qed.
 
-(* the rule table of the statement lexer is COMPUTED from the generated tables (regexes through parse_re, keywords and punctuation as literal texts); none is dropped *)
+(* regular expressions are compared in a NORMAL FORM (classes sorted and merged, alternations of classes folded, e+ = e e*, concatenations flattened) that matches exactly the same texts *)
+Theorem C20_normal_form_is_sound :
+  forall (e : re) (w : text), re_matches (norm e) w <-> re_matches e w.
+Proof. exact norm_sound. Qed.
+
+(* the rule table of the statement lexer is COMPUTED from the generated tables (regexes through parse_re and norm, keywords and punctuation as literal texts); as a set it is the canonical table the proofs were written for - whatever the spelling of the regexes and the order of the declarations in the source *)
 Theorem C20_scanner_rules_are_the_source :
-  lex_rules =
-  [(Some TIdent, re_ident); (Some TDecInt, re_dec); (Some THexInt, re_hex); (
-  Some TBinInt, re_bin); (Some TOctInt, re_oct); (None, re_ws); (None, re_comment)] ++
-  keyword_rules ++ punct_rules.
-Proof. exact lex_rules_eq. Qed.
+  forall (k : option tk) (e : re), In (k, e) lex_rules <-> In (k, e) canonical_lex_rules.
+Proof. exact lex_rules_canon. Qed.
+
+(* matching a rule of the normalised table = matching a rule of the table as parsed *)
+Theorem C20_scanner_rules_normalised_or_not :
+  forall (k : option tk) (w : text), rule_matches lex_rules k w <-> rule_matches raw_lex_rules k w.
+Proof. exact lex_rules_raw. Qed.
+
+(* each regex of the source, as parsed, is one of the rules *)
+Theorem C20_every_source_regex_is_a_rule :
+  forall (n s : string) (k : option tk) (e : re),
+  In (n, s) gen_regexes ->
+  regex_kind n = Some k ->
+  parse_re s = Some e ->
+  In (k, e) raw_lex_rules /\
+  In (k, norm e) lex_rules /\ (forall w : text, re_matches e w -> rule_matches lex_rules k w).
+Proof. exact gen_regex_rule. Qed.
+
+(* e.g. these spellings have the same normal form ... *)
+Theorem C20_respelling_a_class_changes_nothing :
+  option_map norm (parse_re "0[xX][a-fA-F0-9]+") = option_map norm (parse_re "0[xX][0-9a-fA-F]+").
+Proof. exact respell_hex. Qed.
+
+Theorem C20_respelling_ident_changes_nothing :
+  option_map norm (parse_re "[A-Za-z_][A-Za-z_\d]*") =
+  option_map norm (parse_re "[A-Za-z_]([A-Za-z]|_|\d)*").
+Proof. exact respell_ident. Qed.
+
+Theorem C20_respelling_plus_changes_nothing :
+  option_map norm (parse_re "0[bB][01][01]*") = option_map norm (parse_re "0[bB][01]+").
+Proof. exact respell_bin. Qed.
+
+(* ... but \d for [0-9] is a different language (U+0661 after a 1) *)
+Theorem C20_respelling_with_unicode_digits_does :
+  forall e1 e2 : re,
+  parse_re "[1-9]\d*" = Some e1 ->
+  parse_re "[1-9][0-9]*" = Some e2 -> re_matches e1 [49; 1633] /\ ~ re_matches e2 [49; 1633].
+Proof. exact respell_dec_not_sem. Qed.
+
+
+(* the same for the header line: its rule table from the source's HeaderTokenKind *)
+Theorem C20_header_scanner_rules_are_the_source :
+  forall (k : option htk) (e : re), In (k, e) hlex_rules <-> In (k, e) canonical_hlex_rules.
+Proof. exact hlex_rules_canon. Qed.
 
 (* one step of the scanner splits the text into a non-empty lexeme and the rest (so lexing terminates), and stops only at the end *)
 Theorem C20_scanner_partition :
@@ -235,11 +271,6 @@ Theorem C20_scanner_quirk_occurs :
   nd_lead_quirk [128512] /\ lex_one [128512] = Some (Some TError, [128512], []).
 Proof. exact quirk_occurs. Qed.
 
-(* the same for the header line: its rule table from the source's HeaderTokenKind *)
-Theorem C20_header_scanner_rules_are_the_source :
-  hlex_rules = [(Some HName, re_hname); (None, re_ws); (Some HEol, lit_re [10])].
-Proof. exact hlex_rules_eq. Qed.
-
 Theorem C20_header_scanner_partition :
   forall s : text,
   (forall (k : option htk) (w r : text), hlex_one s = Some (k, w, r) -> s = w ++ r /\ w <> []) /\
@@ -283,6 +314,8 @@ Print Assumptions C20_comment_irrelevant.
 Print Assumptions C20_parse_layout.
 Print Assumptions C20_blank_line_after_newline.
 Print Assumptions C20_scanner_rules_are_the_source.
+Print Assumptions C20_normal_form_is_sound.
+Print Assumptions C20_respelling_with_unicode_digits_does.
 Print Assumptions C20_scanner_token_matches_its_rule.
 Print Assumptions C20_scanner_is_longest_match.
 Print Assumptions C20_scanner_error_only_where_no_rule_matches.
